@@ -284,6 +284,34 @@ type ctx struct {
 	file  *ast.File
 	files []string // other files of the package to resolve identifiers in
 	depth int
+	iota  int // value of iota while translating a constant of a const group (-1: not inside one)
+}
+
+// findConst finds the expression defining a package-level constant together with its iota value,
+// applying Go's implicit repetition of the previous expression inside a const group.
+func findConst(f *ast.File, name string) (ast.Expr, int, bool) {
+	for _, d := range f.Decls {
+		gd, ok := d.(*ast.GenDecl)
+		if !ok || gd.Tok != token.CONST {
+			continue
+		}
+		var last []ast.Expr
+		for i, sp := range gd.Specs {
+			vs := sp.(*ast.ValueSpec)
+			vals := vs.Values
+			if len(vals) == 0 {
+				vals = last
+			} else {
+				last = vals
+			}
+			for j, n := range vs.Names {
+				if n.Name == name && j < len(vals) {
+					return vals[j], i, true
+				}
+			}
+		}
+	}
+	return nil, 0, false
 }
 
 // isPkgConst: name is declared by a package-level const declaration with an initialiser (or iota group)
@@ -403,12 +431,21 @@ func (c *ctx) intExpr(e ast.Expr) (string, bool) {
 			die("unsupported selector %s in constant expression", q)
 		}
 	case *ast.Ident:
-		// another package-level constant: inline its translation
+		if v.Name == "iota" {
+			return fmt.Sprintf("(%d)", c.iota), false
+		}
+		// another package-level constant: inline its translation (with its own iota)
+		if val, io, ok := findConst(c.file, v.Name); ok {
+			return (&ctx{repo: c.repo, file: c.file, files: c.files, depth: c.depth, iota: io}).intExpr(val)
+		}
 		if val := findValue(c.file, v.Name); val != nil {
 			return c.intExpr(val)
 		}
 		for _, rel := range c.files {
 			f := parseFile(c.repo, rel)
+			if val, io, ok := findConst(f, v.Name); ok {
+				return (&ctx{repo: c.repo, file: f, files: c.files, depth: c.depth, iota: io}).intExpr(val)
+			}
 			if val := findValue(f, v.Name); val != nil {
 				return (&ctx{repo: c.repo, file: f, files: c.files, depth: c.depth}).intExpr(val)
 			}
@@ -578,6 +615,10 @@ func main() {
 				fmt.Fprintf(&sb, "(* %s:%s *)\nDefinition %s : list N :=\n  %s.\n\n", it.File, it.Name, name, coqBytes([]byte(s)))
 			case "intconst":
 				v := findValue(f, it.Name)
+				if cv, io, ok := findConst(f, it.Name); ok {
+					v = cv
+					c.iota = io
+				}
 				if v == nil {
 					die("%s: constant %s not found in %s", id, it.Name, it.File)
 				}
